@@ -60,7 +60,16 @@ def run_impl(cfg):
         cur = start
         lu.put_block(bufs[0], G, sw.getLayout(cur))
         d, o = 0, 1
-        for (dst, ub) in steps:
+        # a second field moved through the SAME swapper between the steps of the first one (the driver shares one swapper between f, phi
+        # and rho): where the first field currently is may not influence how the second one is moved
+        second = list(cfg.get('second') or [])
+        G2 = G + 1000
+        bufs2 = [np.full(B, -4, dtype=G.dtype), np.full(B, -5, dtype=G.dtype), np.full(B, -6, dtype=G.dtype)]
+        cur2 = start
+        lu.put_block(bufs2[0], G2, sw.getLayout(cur2))
+        d2, o2 = 0, 1
+        out['steps2'] = []
+        for si, (dst, ub) in enumerate(steps):
             ls, ld = sw.getLayout(cur), sw.getLayout(dst)
             before = bufs[d][:ls.size].copy()
             progress[comm.Get_rank()] = (len(out['steps']), cur, dst)
@@ -78,6 +87,13 @@ def run_impl(cfg):
                                  'src_intact': bool(np.array_equal(bufs[d][:ls.size], before)), 'source': to_ints(bufs[d][:ls.size])})
             d, o = o, d
             cur = dst
+            if si < len(second):
+                dst2, ub2 = second[si]
+                progress[comm.Get_rank()] = (len(out['steps']), cur2, dst2)
+                sw.transpose(bufs2[d2], bufs2[o2], cur2, dst2, bufs2[2] if ub2 else None)
+                out['steps2'].append(bool(np.array_equal(lu.block_of(bufs2[o2], sw.getLayout(dst2)), lu.expected_block(G2, sw.getLayout(dst2)))))
+                d2, o2 = o2, d2
+                cur2 = dst2
         return out
     return lu.run_ranks(world, body, policy=cfg.get('policy', 'inorder'), seed=cfg.get('seed', 0))
 
@@ -196,6 +212,11 @@ def check_one(chk, drv, cfg):
         if ub and m['source'] != [r['source'] for r in recs]:
             chk.diff('source blocks (buffer given)', c)
             break
+    for i, (dst2, ub2) in enumerate(cfg.get('second') or []):
+        if i < len(cfg['steps']) and not all(v['steps2'][i] for v in vals):
+            chk.fail('C03:second-field', 'a second field moved through the same swapper between the steps of the first one does not hold its global '
+                     'field after its step %d (-> %s, %s buffer)' % (i, dst2, 'with' if ub2 else 'no'), dict(case, second=cfg['second'], step=i))
+            break
     nd = [len(n) for n in as_lists(cfg['nprocs'])]
     chk.case((str(cfg['nprocs']), tuple(cfg['ext']), str(cfg['groups']), str(cfg['steps'])),
              nontrivial=len(set(nd)) > 1 and cfg['world'] > 1,
@@ -252,7 +273,10 @@ def gen(rng, it, quick):
             shape[rng.randrange(nd)] = rng.choice([1, 1, 2])
     names = [n for g in groups for n in g]
     steps = [(rng.choice(names), rng.random() < 0.5) for _ in range(rng.randint(2, 6))]
-    return {'groups': groups, 'nprocs': nprocs, 'ext': shape, 'start': rng.choice(names), 'steps': steps, 'world': world,
+    second = None
+    if it % 2 == 1:
+        second = [(rng.choice(names), (rng.random() < 0.5) if it % 4 == 3 else False) for _ in steps]
+    return {'groups': groups, 'nprocs': nprocs, 'ext': shape, 'start': rng.choice(names), 'steps': steps, 'world': world, 'second': second,
             'dtype': rng.choice(['int64', 'float64', 'complex128']), 'policy': rng.choice(['inorder', 'reverse', 'random']), 'seed': it}
 
 
